@@ -41,7 +41,9 @@ MUTATIONS = [
     ("C03", "exhaust-multiply-keeps", "iteration_graph/identifiable_expression/_exhaust_tensor.py", "    elif left_exhausted == Integer(0) or right_exhausted == Integer(0):\n        return Integer(0)", "    elif left_exhausted == Integer(0) and right_exhausted == Integer(0):\n        return Integer(0)", 1),
     ("C03", "flags-unconditional", "iteration_graph/_generate_ir.py", "    if self.expression != Integer(0):\n        for flag", "    if True:\n        for flag", 1),
     ("C16", "context-add-or", "iteration_graph/identifiable_expression/_extract_context.py", "            is_sparse=self.is_sparse and other.is_sparse,", "            is_sparse=self.is_sparse or other.is_sparse,", 1),
-    ("C16", "is-sparse-ignores-output", "iteration_graph/_generate_ir.py", "    is_sparse = self.is_sparse_input() and (self.output is None or self.is_sparse_output())", "    is_sparse = self.is_sparse_input()", 1),
+    ("C01", "is-sparse-ignores-output", "iteration_graph/_generate_ir.py", "    is_sparse = self.is_sparse_input() and (self.output is None or self.is_sparse_output())", "    is_sparse = self.is_sparse_input()", 1),
+    ("C05", "is-sparse-ignores-output-c05", "iteration_graph/_generate_ir.py", "    is_sparse = self.is_sparse_input() and (self.output is None or self.is_sparse_output())", "    is_sparse = self.is_sparse_input()", 1),
+    ("C16", "is-sparse-never", "iteration_graph/_generate_ir.py", "    is_sparse = self.is_sparse_input() and (self.output is None or self.is_sparse_output())", "    is_sparse = self.is_sparse_input() and self.output is None", 1),
     ("C04", "is-assemble-true-for-compute", "kernel_type.py", "        return self == KernelType.assemble or self == KernelType.evaluate", "        return True", 1),
     ("C04", "flags-only-when-compute", "iteration_graph/_generate_ir.py", "    if self.expression != Integer(0):\n        for flag", "    if self.expression != Integer(0) and kernel_type.is_compute():\n        for flag", 1),
     ("C07", "harmless-rename-locals", "ir/_peephole.py", "    condition = peephole_expression(self.condition)\n    body = peephole_statement(self.body)\n\n    if condition == BooleanLiteral(False):\n        return Block([])\n    elif isinstance(self.body, Block) and self.body.is_empty():\n        return Block([])\n    else:\n        return Loop(condition, body)",
